@@ -11,7 +11,11 @@
 (*   py     (C18) python: expressions in every command position, gate on and off            *)
 EXTENDS TALES
 
-CONSTANT Quick          \* TRUE: the smaller option sets of the quick tier
+CONSTANTS Quick,        \* TRUE: the smaller option sets of the quick tier
+          EscLen        \* length bound (in tokens) of the metacharacter values of family esc
+
+SX == INSTANCE SequencesExt
+Sq(set) == SX!SetToSeq(set)      \* a set of options as a sequence (TLC's normalised order: deterministic)
 
 \* ---- contexts (sequences of Ent(name, value); gamma turns them into Python objects) ------------
 CtxA == <<
@@ -91,6 +95,11 @@ ExprTrees ==
               e \in {Alt(<<P("x/label"), P("default")>>), Alt(<<P("x/label"), S(<<Lit("item "), Sub(P("repeat/x/number"))>>)>>),
                      Alt(<<P("x/label"), P("nothing")>>), P("x/label")}}
 
+    \* per-iteration state: what one iteration set must not be seen by the next (attributes kept by `default`)
+    \cup {Wrap(Base(<<CRepeat("x", P("recs")), CAttributes(<<Item(FALSE, "class", Alt(<<P("x/label"), P("default")>>)),
+                                                              Item(FALSE, "title", Alt(<<P("x/other"), P("nothing")>>))>>)>> \o ct)) :
+              ct \in Opt({CContent(Alt(<<P("x/label"), P("default")>>), FALSE), CReplace(Alt(<<P("x/other"), P("default")>>), FALSE)})}
+
 \* ---- family one: every subset of the six commands ---------------------------------------------------------
 Define1a == CDefine(<<Item(FALSE, "v", P("lt"))>>)
 Define1b == CDefine(<<Item(TRUE, "gv", P("n")), Item(FALSE, "v", Alt(<<P("gv"), P("s")>>))>>)
@@ -104,9 +113,7 @@ AttrOpts1   == Opt({CAttributes(<<Item(FALSE, "id", Alt(<<P("x"), P("s")>>)), It
                     CAttributes(<<Item(FALSE, "class", Alt(<<P("v"), P("lt")>>))>>)} \ (IF Quick THEN {CAttributes(<<Item(FALSE, "class", Alt(<<P("v"), P("lt")>>))>>)} ELSE {}))
 OmitOpts1   == Opt({COmit(NoE), COmit(P("z"))} \cup (IF Quick THEN {} ELSE {COmit(Alt(<<P("x"), P("s")>>))}))
 Tail1Sib == El("i", <<>>, <<CContent(Alt(<<P("v"), P("gv"), P("x"), S(<<Lit("none")>>)>>), FALSE)>>, <<TextN("o")>>)
-\* (split by the define option: the model checker runs one process per part)
-OneTrees(dopts) == {Wrap(Base(d \o c \o r \o ct \o a \o o)) \o <<Tail1Sib>> :
-                d \in dopts, c \in CondOpts1, r \in RepeatOpts1, ct \in ContentOpts1, a \in AttrOpts1, o \in OmitOpts1}
+OneTree(o) == Wrap(Base(o[1] \o o[2] \o o[3] \o o[4] \o o[5] \o o[6])) \o <<Tail1Sib>>
 
 \* ---- family void: an element without end tag ------------------------------------------------------------------
 VoidTrees == {<<TextN("["), El("img", <<At("src", "u"), At("alt", "a<")>>, Written(d \o c \o r \o ct \o a \o o), <<>>), TextN("]")>> :
@@ -119,8 +126,7 @@ VoidTrees == {<<TextN("["), El("img", <<At("src", "u"), At("alt", "a<")>>, Writt
                        El("hr", <<At("class", "k")>>, <<CCondition(c)>>, <<>>), RawN("<!-- c -->")>>)>> : c \in {P("s"), P("z")}}
 
 \* ---- family nest: parent x child ---------------------------------------------------------------------------------
-PDefineA == CDefine(<<Item(FALSE, "v", P("s"))>>)
-PDefineB == CDefine(<<Item(TRUE, "gv", P("s"))>>)
+PDefine  == Opt({CDefine(<<Item(FALSE, "v", P("s"))>>), CDefine(<<Item(TRUE, "gv", P("s"))>>)})
 PCond    == Opt({CCondition(P("n")), CCondition(P("z"))})
 PRepeat  == Opt({CRepeat("r", P("rows")), CRepeat("r", P("lst")), CRepeat("r", P("el"))})
 PContent == Opt({CContent(P("default"), FALSE), CContent(P("s"), FALSE)})
@@ -136,14 +142,6 @@ NestSib  == El("i", <<>>, <<CContent(Alt(<<P("v"), P("gv"), P("r"), P("c"), S(<<
 NestTree(ptal, ktal) ==
     <<El("div", <<At("id", "d")>>, Written(ptal),
          <<TextN("("), El("span", <<At("id", "k")>>, Written(ktal), <<TextN("k")>>), TextN(")")>>), NestSib>>
-NestTreesFull(pdopts) == {NestTree(pd \o pc \o pr \o pct \o pa \o po, kd \o kc \o kr \o kct \o ka) :
-                    pd \in pdopts, pc \in PCond, pr \in PRepeat, pct \in PContent, pa \in PAttr, po \in POmit,
-                    kd \in KDefine, kc \in KCond, kr \in KRepeat, kct \in KContent, ka \in KAttr}
-\* quick tier: the parent always repeats or defines; the child has at least one command
-NestTreesQuick(pdopts) == {NestTree(pd \o pc \o pr \o pct \o pa, kd \o kc \o kr \o kct \o ka) :
-                    pd \in pdopts, pc \in {<<>>}, pr \in Opt({CRepeat("r", P("rows")), CRepeat("r", P("lst"))}),
-                    pct \in Opt({CContent(P("default"), FALSE)}), pa \in PAttr,
-                    kd \in KDefine, kc \in KCond, kr \in KRepeat, kct \in KContent, ka \in {<<>>}}
 \* three levels: repeat in repeat in repeat, define shadowing at every level (depth 3)
 DeepTrees == {<<El("ul", <<>>, Written(<<CRepeat("a", P("rows"))>> \o d1),
                    <<El("li", <<>>, Written(<<CRepeat("b", ab)>> \o d2),
@@ -168,13 +166,12 @@ SlotTal  == Opt({CContent(Alt(<<P("x"), P("v"), P("s")>>), FALSE), CCondition(P(
 FillTal  == Opt({CContent(Alt(<<P("x"), P("v"), P("n")>>), FALSE)} \cup (IF Quick THEN {} ELSE {CRepeat("y", P("one"))}))
 UseTal   == Opt({CContent(P("s"), FALSE), CDefine(<<Item(TRUE, "gv", P("n"))>>), CRepeat("x", P("one"))})
 MetalSib == El("i", <<>>, <<CContent(Alt(<<P("v"), P("gv"), P("x"), S(<<Lit("none")>>)>>), FALSE)>>, <<>>)
-MetalGen(firsts, ues, uts) ==
-    {(IF first THEN <<MacroEl(mt, stl), TextN("/")>> ELSE <<>>) \o <<UseEl(ue, ut, fl), TextN("/")>>
-       \o (IF first THEN <<>> ELSE <<MacroEl(mt, stl)>>) \o <<MetalSib>> :
-        first \in firsts, mt \in MacroTal, stl \in SlotTal, ue \in ues, ut \in uts,
-        fl \in {<<>>} \cup (IF Quick THEN {} ELSE {<<Fill2>>}) \cup {<<Fill1(ft)>> : ft \in FillTal} \cup {<<Fill1(ft), Fill2>> : ft \in FillTal}}
+MetalTree(first, mt, stl, use, fl) ==
+    (IF first THEN <<MacroEl(mt, stl), TextN("/")>> ELSE <<>>) \o <<UseEl(use[1], use[2], fl), TextN("/")>>
+    \o (IF first THEN <<>> ELSE <<MacroEl(mt, stl)>>) \o <<MetalSib>>
 \* E.4 is silent on the other commands of an element whose use-macro evaluates to nothing
-MetalTrees(firsts) == MetalGen(firsts, UseExprs \ UseNone, UseTal) \cup MetalGen(firsts, UseNone, {<<>>})
+UsePairs == {<<ue, ut>> : ue \in UseExprs \ UseNone, ut \in UseTal} \cup {<<ue, <<>>>> : ue \in UseNone}
+FillOpts == {<<>>} \cup (IF Quick THEN {} ELSE {<<Fill2>>}) \cup {<<Fill1(ft)>> : ft \in FillTal} \cup {<<Fill1(ft), Fill2>> : ft \in FillTal}
 \* two uses of the same macro with different fillers, and a template value as structured content
 MetalExtra == {<<MacroEl(<<>>, <<>>), UseEl(P("macros/m1"), <<>>, <<Fill1(<<>>)>>), UseEl(P("macros/m1"), <<>>, <<Fill2>>),
             El("q", <<>>, <<CContent(P("macros/m1"), st)>>, <<TextN("o")>>),
@@ -219,11 +216,51 @@ DocTreesSmall == {<<e>> : e \in DocElems(1)}
 DocTreesLarge == {<<e>> : e \in DocElems(2)} \cup {<<El("p", a, <<>>, <<e, TextN("z")>>)>> : a \in DocAtts, e \in DocElems(1)}
 DocVariants == 0..3
 
+\* ---- descriptors ---------------------------------------------------------------------------------------------------------
+\* A family is given by DIMENSIONS (sequences of options) and a builder from one option per dimension to a case.  The
+\* model checker enumerates small descriptors [fam, ix, ctx] (ix = one index per dimension) and builds the tree in
+\* an action; big sets of big trees are never built.  (Zero-arity definitions: TLC evaluates them once.)
+DimsExpr  == <<Sq(ExprTrees)>>
+DimsOne   == <<Sq(Opt({Define1a, Define1b})), Sq(CondOpts1), Sq(RepeatOpts1), Sq(ContentOpts1), Sq(AttrOpts1), Sq(OmitOpts1)>>
+DimsVoid  == <<Sq(VoidTrees)>>
+DimsNest  == IF Quick  \* quick tier: the parent has no condition and no omit-tag, the child no attributes
+             THEN <<Sq(PDefine), Sq({<<>>}), Sq(Opt({CRepeat("r", P("rows")), CRepeat("r", P("lst"))})), Sq(Opt({CContent(P("default"), FALSE)})),
+                    Sq(PAttr), Sq({<<>>}), Sq(KDefine), Sq(KCond), Sq(KRepeat), Sq(KContent), Sq({<<>>})>>
+             ELSE <<Sq(PDefine), Sq(PCond), Sq(PRepeat), Sq(PContent), Sq(PAttr), Sq(POmit), Sq(KDefine), Sq(KCond), Sq(KRepeat), Sq(KContent), Sq(KAttr)>>
+DimsDeep  == <<Sq(DeepTrees)>>
+DimsMetal == <<IF Quick THEN <<TRUE>> ELSE <<TRUE, FALSE>>, Sq(MacroTal), Sq(SlotTal), Sq(UsePairs), Sq(FillOpts)>>
+DimsMetalX == <<Sq(MetalExtra)>>
+DimsEsc   == <<Sq(EscShapes), Sq(MetaValues(EscLen))>>
+DimsPy    == <<Sq(PyTrees), <<FALSE, TRUE>>>>
+DimsDoc   == <<Sq(IF Quick THEN DocTreesSmall ELSE DocTreesSmall \cup DocTreesLarge), <<0, 1, 2, 3>>>>
+Dims(f) == CASE f = "expr" -> DimsExpr [] f = "one" -> DimsOne [] f = "void" -> DimsVoid [] f = "nest" -> DimsNest
+             [] f = "deep" -> DimsDeep [] f = "metal" -> DimsMetal [] f = "metalx" -> DimsMetalX [] f = "esc" -> DimsEsc
+             [] f = "py" -> DimsPy [] f = "doc" -> DimsDoc
+AllFamilies == {"expr", "one", "void", "nest", "deep", "metal", "metalx", "esc", "py", "doc"}
+
+RECURSIVE Prod(_, _)
+Prod(dims, i) == IF i > Len(dims) THEN {<<>>} ELSE {<<a>> \o r : a \in 1..Len(dims[i]), r \in Prod(dims, i + 1)}
+Indices(f) == Prod(Dims(f), 1)
+RECURSIVE Rank(_, _, _)          \* mixed-radix number of an index vector (to split a family over processes)
+Rank(dims, ix, i) == IF i > Len(dims) THEN 0 ELSE (ix[i] - 1) + Len(dims[i]) * Rank(dims, ix, i + 1)
+Pick(f, ix) == [i \in DOMAIN ix |-> Dims(f)[i][ix[i]]]
+
+\* the contexts a family is run with: esc brings its own values, py and doc need one context only
+CtxFor(f, ctxs) == IF f \in {"esc", "doc"} THEN {"none"} ELSE IF f = "py" THEN {"A"} ELSE ctxs
+
 \* ctx = [id |-> name of a context of Contexts ("none": no named context), ents |-> further globals]
-Case(fam, tree, id, ents, py) == [fam |-> fam, tree |-> tree, ctx |-> [id |-> id, ents |-> ents], py |-> py, var |-> 0]
-DocCases(trees) == {[Case("doc", t, "none", <<>>, FALSE) EXCEPT !.var = v] : t \in trees, v \in DocVariants}
-Fam(fam, trees, ctxs) == {Case(fam, t, c, <<>>, FALSE) : t \in trees, c \in ctxs}
-EscCases(n) == {Case("esc", t, "none", EscCtx(v), FALSE) : t \in EscShapes, v \in MetaValues(n)}
-PyCases == {Case("py", t, "A", <<>>, py) : t \in PyTrees, py \in BOOLEAN}
+Case(fam, tree, id, ents, py, var) == [fam |-> fam, tree |-> tree, ctx |-> [id |-> id, ents |-> ents], py |-> py, var |-> var]
+CaseOf(d) ==
+    LET o == Pick(d.fam, d.ix) IN
+    CASE d.fam = "one"   -> Case("one", OneTree(o), d.ctx, <<>>, FALSE, 0)
+      [] d.fam = "nest"  -> Case("nest", NestTree(o[1] \o o[2] \o o[3] \o o[4] \o o[5] \o o[6], o[7] \o o[8] \o o[9] \o o[10] \o o[11]), d.ctx, <<>>, FALSE, 0)
+      [] d.fam = "metal" -> Case("metal", MetalTree(o[1], o[2], o[3], o[4], o[5]), d.ctx, <<>>, FALSE, 0)
+      [] d.fam = "esc"   -> Case("esc", o[1], "none", EscCtx(o[2]), FALSE, 0)
+      [] d.fam = "py"    -> Case("py", o[1], d.ctx, <<>>, o[2], 0)
+      [] d.fam = "doc"   -> Case("doc", o[1], "none", <<>>, FALSE, o[2])
+      [] OTHER           -> Case(d.fam, o[1], d.ctx, <<>>, FALSE, 0)
+Descs(fams, ctxs, nparts, part) ==
+    UNION {{[fam |-> f, ix |-> ix, ctx |-> c] : ix \in {x \in Indices(f) : Rank(Dims(f), x, 1) % nparts = part}, c \in CtxFor(f, ctxs)} : f \in fams}
+NoCase == Case("", <<>>, "none", <<>>, FALSE, 0)
 CtxEnts(c) == (IF c.ctx.id \in DOMAIN Contexts THEN Contexts[c.ctx.id] ELSE <<>>) \o c.ctx.ents
 =============================================================================
